@@ -22,7 +22,46 @@ def n_stages(gen):
     return sum(len(e.get("stages", [])) + 1 for e in gen.get("stages", []))
 
 
+def n_layout_calls(gen):
+    return sum(len(l.get("calls", [])) + 1 for l in gen.get("layouts", []))
+
+
+MODEL_KERNEL = "hand models SwiftMT/Text.lean, Extract.lean, MParser.lean of field_extractor.rs and message_parser.rs: modelled, not verified; tied by the `extract` correspondence stream (adversarial texts x tags through extract_field_content; random operation histories through the public MessageParser API)"
+
 PROPS = {
+    "C01": {
+        "streams": ["c01", "extract"],
+        "driver": True,
+        "extractors": ["T1"],
+        "instances": n_layout_calls,
+        "rule": "c01: for each of the 30 types, messages generated from the independent layout spec (spec/layouts.txt) with contents from "
+                "the library's own canonical spellings, rendered with LF/CRLF, with/without terminator, plus the library's serialisations of "
+                "scenario draws; each valid text also under the mutators insert-unknown-tag, insert-known-tag, duplicate, swap, append, "
+                "corrupt-content, foreign-option-letter, blank-line, over-cap; the oracle tokenises input and output independently of the "
+                "library.  Non-trivial = accepted valid text or a mutant outside the layout; distinct = distinct (type, class, tag sequence). "
+                "extract: adversarial strings (markers, end markers, CR/LF, Unicode white space and letters) x tags, and random "
+                "MessageParser operation histories, implementation vs compiled Lean model",
+        "modelled": "extraction kernel + MessageParser (all public operations) modelled by hand; 30 parse_from_block4 bodies regenerated as call "
+                    "lists with propagation/completeness facts (T1); field parsers abstract (any acceptance predicate); field content "
+                    "round trips are C02",
+        "trusted_base": [KERNEL, TRANSLATOR, HARNESS, MODEL_KERNEL,
+                         "spec/layouts.txt: independent layout specification used by the generator and the oracle's membership test"],
+        "assumptions": ["every pattern searched for is valid UTF-8, so byte offsets of matches are character boundaries",
+                        "char::is_alphanumeric / is_whitespace as tabulated in Text.lean (exact on ASCII and on the non-ASCII ranges the generators use)",
+                        "the result of each propagated parse call reaches the constructed message (translator checks `?` and absence of `let _`; the oracle checks the rest)"],
+    },
+    "C09": {
+        "streams": ["c09"],
+        "driver": False,
+        "extractors": ["T1"],
+        "instances": n_layout_calls,
+        "rule": "for each of the 30 types and each accepted generated message: every mandatory occurrence deleted (one at a time, skipped when "
+                "the text stays inside the layout) and every occurrence's content replaced by a content no field accepts; expected error: "
+                "MissingRequiredField{tag or base tag, type} resp. InvalidFieldFormat{tag, value = the content}; distinct = (type, tag, position)",
+        "modelled": "MessageParser error behaviour (missing / invalid) by hand; mandatory reads per type regenerated (T1)",
+        "trusted_base": [KERNEL, TRANSLATOR, HARNESS, MODEL_KERNEL],
+        "assumptions": ["the message type reported is the constant passed to MessageParser::new (checked by the oracle on every case)"],
+    },
     "C12": {
         "streams": ["c12"],
         "driver": True,
